@@ -126,7 +126,7 @@ def model_isclose(a, b, rtol=1e-05, atol=1e-08, equal_nan=False):
     for idx in np.ndindex(*a_.shape):
         x, y = a_[idx], b_[idx]
         out[idx] = bool(abs(x - y) <= atol + rtol * abs(y))
-    return out if out.shape else bool(out[()])
+    return out if out.shape else np.bool_(out[()])
 
 
 # ---------------------------------------------------------------- exact linear algebra
